@@ -367,6 +367,11 @@ func (obj *SparseConstIntVectorJointIterator) Ok() bool {
          !(obj.s2.GetInt() == int(0))
 }
 func (obj *SparseConstIntVectorJointIterator) Next() {
+  // skip positions where both operands hold a zero
+  for obj.next() && !obj.Ok() {
+  }
+}
+func (obj *SparseConstIntVectorJointIterator) next() bool {
   ok1 := obj.it1.Ok()
   ok2 := obj.it2.Ok()
   obj.s1 = ConstInt(0)
@@ -393,6 +398,7 @@ func (obj *SparseConstIntVectorJointIterator) Next() {
   } else {
     obj.s2 = ConstInt(0.0)
   }
+  return ok1 || ok2
 }
 func (obj *SparseConstIntVectorJointIterator) GetConst() (ConstScalar, ConstScalar) {
   return obj.s1, obj.s2
